@@ -32,6 +32,7 @@ def rules(ck, P):
     mvt.pbf_rules(ck, P)
     mvt.feature_write_rule(ck, P)
     mvt.vtlp_rules(ck, P)
+    mvt.total_order_rules(ck, P)
     # ---------------- R-NAMED-LAYER
     run = [b for b in P.bodies if b["q"].endswith("vectortiles_update_properties::Runner::run")]
     if ck.anchor("R-NAMED-LAYER", "Runner::run", run, 1):
